@@ -49,7 +49,7 @@ MANIFEST = {
     'design_ref': 'DESIGN.md section 4, C18',
     'note': "Trusted: Lean kernel; hand transcription of N2kDeviceList.cpp (with the four fix commits) validated only by "
             "differential runs; C16 parser models (what GetStr/GetVarStr leave in a buffer is C16's subject); SendMsg and "
-            "uninitialised memory as environment inputs; request pacing (N2kHasElapsed with the 0 sentinel, the uninitialised "
+            "uninitialised memory as environment inputs; request pacing (as of /repo f104fb3: counter==0 means never requested, N2kHasElapsed for all three kinds - rule stated in C18_request_due; the uninitialised "
             "LastMessageTime of a new reservation) is transcribed but its timing properties belong to C13. Open: "
             "C18:parked-entry-prodinfo (displaced entries parked on a free slot).",
 }
